@@ -93,6 +93,12 @@ func (ex *Exec) vcall(name string, fn *ssa.Function, args []Val, caller *frame) 
 			return funcDisplayName(f.Fn)
 		}
 		return "nil"
+	case "TypeOf":
+		a := args[0].(iface)
+		if a.t == nil {
+			return "<nil>"
+		}
+		return typeStr(a.t)
 	case "IsSymbolic":
 		return Bool{C: true}
 	case "Show":
